@@ -40,6 +40,7 @@ E = xl.err
 HOSTILE = [
     0.0, -1.0, 2.5, 1234567.0, 1e-5, -3.7, 255.0, 40000.0,
     'abc', '', '12', ' x ', '2020-01-01', 'TRUE', '#N/A',
+    '\u4e2d\u6587', '\u0416x', 'a\nb', 171.0, 300.0,
     True, False, sh.EMPTY,
     E('#N/A'), E('#DIV/0!'), E('#VALUE!'), E('#REF!'),
     [[5.0]], [[1.0, 'a', True]], [[1.0], [E('#N/A')], [sh.EMPTY]],
